@@ -77,7 +77,9 @@ pub fn run_blocking(sc: &StreamScenario) -> StreamOutcome {
         Box::new(SimStream(link.clone())),
         Codec::new(sc.mode.to_mode()),
     );
-    framed.verify_version(sc.verify_version);
+    if sc.verify_version || sc.explicit_gate {
+        framed.verify_version(sc.verify_version);
+    }
 
     let push = |e: Ev| link.lock().unwrap_or_else(|e| e.into_inner()).trace.push(e);
     let exhausted = || link.lock().unwrap_or_else(|e| e.into_inner()).exhausted;
@@ -201,7 +203,9 @@ pub fn run_tokio(sc: &StreamScenario) -> StreamOutcome {
             Box::new(SimStream(link.clone())),
             Codec::new(sc.mode.to_mode()),
         );
+        if sc.verify_version || sc.explicit_gate {
         framed.verify_version(sc.verify_version);
+    }
 
         let push = |e: Ev| link.lock().unwrap_or_else(|e| e.into_inner()).trace.push(e);
         let exhausted = || link.lock().unwrap_or_else(|e| e.into_inner()).exhausted;
